@@ -376,6 +376,27 @@ func (w *walker) walkValue(root *Node, p path, sp *spec, inPayload bool) {
 	}
 }
 
+// another well-formed value for a wrapper part
+func otherPart(key string, orig *Node) *Node {
+	switch key {
+	case "signed":
+		c := orig.Clone()
+		for i := range c.Obj {
+			if c.Obj[i].Key == "name" || c.Obj[i].Key == "readme" {
+				c.Obj[i].Val = Str("THE OTHER COPY")
+			}
+		}
+		return c
+	case "signatures":
+		return Arr(Obj(Member{"keyid", Str("ffff")}, Member{"sig", Str("eeee")}))
+	case "payloadType":
+		return Str("application/vnd.in-toto+json")
+	case "payload":
+		return Str(base64.StdEncoding.EncodeToString([]byte(`{"_type":"link","name":"THE OTHER COPY","materials":{},"products":{},"byproducts":{},"command":[],"environment":{}}`)))
+	}
+	return Null()
+}
+
 // enumerate all single-point corruptions of the document
 func enumerate(d *doc, isLink bool) []corruption {
 	psp := spLayout
@@ -411,6 +432,38 @@ func enumerate(d *doc, isLink bool) []corruption {
 		for _, wv := range wrongValues(kind) {
 			wv := wv
 			w.addP("retype@wrapper", "retype "+where+" to "+wv.JSON(), vRefuse, func(r *Node) { r.Obj[i].Val = wv.Clone() })
+		}
+		// the wrapper parts are looked up by their exact names: a case-only rename leaves the part missing
+		variants := []string{upperFirst(key), strings.ToUpper(key), strings.ToLower(key), key[:2] + strings.ToUpper(key[2:3]) + key[3:]}
+		if j := strings.IndexAny(key, "sS"); j >= 0 {
+			variants = append(variants, key[:j]+"\u017f"+key[j+1:]) // long s folds to s
+		}
+		if j := strings.IndexAny(key, "kK"); j >= 0 {
+			variants = append(variants, key[:j]+"\u212a"+key[j+1:]) // Kelvin sign folds to k
+		}
+		seen := map[string]bool{key: true}
+		for _, v := range variants {
+			if seen[v] {
+				continue
+			}
+			seen[v] = true
+			v := v
+			w.addP("wrapper-key-case", fmt.Sprintf("%s renamed to %q (differs by case only)", where, v), vRefuse, func(r *Node) { r.Obj[i].Key = v })
+			// two copies with different content: the exact-case member is the part (legacy: rawData[key]);
+			// in an envelope the members also go through encoding/json's case-insensitive struct decoding, where the
+			// last one in document order wins: no demand there, model tie only
+			tv := vSame
+			if d.Wrapper == "D" {
+				tv = vNone
+			}
+			if v == upperFirst(key) || v == strings.ToUpper(key) {
+				w.addP("wrapper-key-case-two-copies", fmt.Sprintf("%s followed by a member %q with other content", where, v), tv, func(r *Node) {
+					r.Obj = append(r.Obj, Member{v, otherPart(key, r.Obj[i].Val)})
+				})
+				w.addP("wrapper-key-case-two-copies", fmt.Sprintf("a member %q with other content in front of %s", v, where), tv, func(r *Node) {
+					r.Obj = append([]Member{{v, otherPart(key, r.Obj[i].Val)}}, r.Obj...)
+				})
+			}
 		}
 	}
 	if d.Wrapper == "L" {
